@@ -16,6 +16,10 @@ Tr == ndJsonDeserialize(IOEnv.TRACE)
 RECURSIVE SumSeq(_, _)
 SumSeq(s, i) == IF i > Len(s) THEN 0 ELSE s[i] + SumSeq(s, i + 1)
 
+RECURSIVE FastWalk(_, _, _, _)
+FastWalk(b, i, n, cnt) == IF i > n \/ b[i] = 0 THEN cnt
+                         ELSE LET L == IF LeadLen(b[i]) = 0 THEN 1 ELSE LeadLen(b[i]) IN
+                              IF i + L - 1 > n THEN cnt ELSE FastWalk(b, i + L, n, cnt + 1)
 Accept(e) ==
   CASE e.f = "cp" ->
          /\ e.n = ULen(e.cp) /\ e.enc = Encode(e.cp)                      \* the table's length, the table's bytes
@@ -37,6 +41,9 @@ Accept(e) ==
          \* the unvalidating counter (for text known to be well formed) agrees whenever the text is well formed up to its
          \* end or its first NUL
          /\ ("fast" \in DOMAIN e /\ (e.stop = e.num \/ e.b[e.stop + 1] = 0) => e.fast = e.count)
+         \* ... and on any text it counts by lead bytes: each position advances by the length its byte announces (one for a
+         \* byte that announces nothing: continuation bytes, 0xFE, 0xFF), up to the first NUL; a character cut by the end is not counted
+         /\ ("fast" \in DOMAIN e => e.fast = FastWalk(e.b, 1, e.num, 0))
     [] OTHER -> FALSE
 
 TraceInit == l = 1
